@@ -11,7 +11,7 @@ From Coq Require Import ZArith List Bool.
 From Low Require Import Model.Size Spec.SizeSpec Proofs.SizeProofs.
 From Low Require Import Model.SizeFmt Model.SizeStat Spec.SizeStatSpec Proofs.SizeStatProofs.
 From Coq Require Import Permutation.
-From Low Require Import Proofs.SizeStatOrderProofs Proofs.SizeFmtProofs.
+From Low Require Import Proofs.SizeStatOrderProofs Proofs.SizeFmtProofs Spec.SizeStatOrderSpec Proofs.SizeStatOrderDeep.
 From Low Require Import Model.TypeHelper Spec.TypeHelperSpec Proofs.TypeHelperProofs.
 From Low Require Import Model.SizeGraph Spec.SizeGraphSpec Proofs.SizeGraphProofs.
 Import ListNotations.
@@ -153,6 +153,39 @@ Theorem C20_Stat_sorted_map_order : forall ty kvs kvs' depth maxItem o,
   sort_lines (spec_lines (Some (LMap ty kvs')) depth maxItem o).
 Proof. exact Stat_sorted_map_order. Qed.
 Print Assumptions C20_Stat_sorted_map_order.
+
+(** the same for maps at ANY depth: [sim v v'] = the same labelled value up to the order of the
+    entries of its maps; [maps_le maxItem v] = no map of v has more than maxItem entries *)
+Theorem C20_Stat_map_order_deep : forall v v' depth maxItem o,
+  sim v v' -> maps_le maxItem v = true ->
+  Permutation (spec_lines (Some v) depth maxItem o) (spec_lines (Some v') depth maxItem o).
+Proof. exact Stat_map_order_deep. Qed.
+Print Assumptions C20_Stat_map_order_deep.
+
+Theorem C20_Stat_sorted_map_order_deep : forall v v' depth maxItem o,
+  sim v v' -> maps_le maxItem v = true ->
+  sort_lines (spec_lines (Some v) depth maxItem o) = sort_lines (spec_lines (Some v') depth maxItem o).
+Proof. exact Stat_sorted_map_order_deep. Qed.
+Print Assumptions C20_Stat_sorted_map_order_deep.
+
+Example C20_Stat_order_nonvacuous :
+  let i8 := LScalar [105; 56] KInt8 in
+  let ea := ([97], VString [97], i8) in
+  let eb := ([98], VString [98], LString [115] [1; 2]) in
+  let v := LStruct [84] [([102], LMap [77] [ea; eb])] in
+  let v' := LStruct [84] [([102], LMap [77] [eb; ea])] in
+  sim v v' /\ maps_le 2 v = true /\
+  nth 2 (spec_lines (Some v) (-1) 2 no_opt) [] = [32; 32; 32; 32; 32; 32; 32; 32; 97; 58; 32; 105; 56; 58; 32; 49] /\
+  nth 2 (spec_lines (Some v') (-1) 2 no_opt) [] = [32; 32; 32; 32; 32; 32; 32; 32; 98; 58; 32; 115; 58; 32; 49; 56] /\
+  sort_lines (spec_lines (Some v) (-1) 2 no_opt) = sort_lines (spec_lines (Some v') (-1) 2 no_opt).
+Proof.
+  cbv zeta. split.
+  - apply sim_struct. constructor; [|constructor]. split; [reflexivity|]. cbn [snd].
+    eapply sim_map; [|apply perm_swap].
+    constructor; [split; [reflexivity|apply sim_scalar]|].
+    constructor; [split; [reflexivity|apply sim_string]|constructor].
+  - vm_compute. repeat split; reflexivity.
+Qed.
 
 (** the average of a header line: with T the printed number in thousandths, s the size, n = AvgOf,
     unit = unit_num / unit_den = 2^k (1 when AvgUnit = 0) and x = s / (n * unit) the exact quotient,
